@@ -450,6 +450,7 @@ class Recorder:
     def __init__(self):
         self.log, self.plist, self.pobjs, self.declared, self.fails, self.build = [], [], {}, {}, [], "A"
         self.node_ix, self.created, self.events = {}, {}, []
+        self.paused = False      # further builds of the program (for unions over some of its actions) are not logged
 
     def declare(self, obj, args, kwargs):
         self.declared[id(obj)] = (obj, list(args or []), dict(kwargs or {}))
@@ -482,6 +483,8 @@ class Recorder:
         rec, orig, Payload = self, fluent.Node.__init__, fluent.Payload
 
         def __init__(node, *a, **k):
+            if rec.paused:
+                return orig(node, *a, **k)
             given = a[0] if a else k.get("payload")
             inputs = a[1] if len(a) > 1 else k.get("inputs", [])
             ovr = a[3] if len(a) > 3 else k.get("name")
@@ -506,6 +509,8 @@ class Recorder:
 
         def pinit(p, *a, **k):
             porig(p, *a, **k)
+            if rec.paused:
+                return
             rec.created[id(p)] = (p, list(p.args), dict(p.kwargs))      # a Payload made by the library (Payload(callable), Payload(backends.sum, ...))
         self._porig, self._pcls = porig, Payload
         Payload.__init__ = pinit
@@ -939,6 +944,190 @@ def swap_steps(rng, pool):
     return [pick, binary_back, join_xy, join_yx, reduce_at(0), reduce_at(1)]
 
 
+TWICE = "rebuilt-twice"
+
+
+def twice_steps(rng, pool):
+    """the same sub-computation written out twice inside ONE program and then combined: m1 = x.op(...), m2 = x.op(...) (equal
+    names, distinct node objects), optionally something different on top of each (l = m1 * 2, r = m2 ** 3), then both in one
+    action (l + r, or join(l, r) and a reduction over it): the graph of that single action holds two nodes of one name."""
+    st = {}
+
+    def grown(snaps, by):
+        return bool(st) and len(snaps) == st["n"] + by
+
+    def again(snaps):
+        small = [ix for ix, t in enumerate(snaps) if 0 < len(t["names"]) <= 4] or [ix for ix, t in enumerate(snaps) if t["names"]]
+        if not small:
+            return None
+        i = rng.choice(small)
+        s = snaps[i]
+        r = rng.random()
+        if r < 0.45 or not s["dims"]:
+            o = {"op": "map", "self": i, "fn": rng.choice(pool)}
+            q = rng.random()
+            if q < 0.3:
+                o["args"] = ["input0", rng.choice(STATICS)]
+            elif q < 0.5:
+                o["kwargs"] = {"p": rng.choice(STATICS)}
+            elif q < 0.6:
+                o["args"], o["via"] = [rng.choice(STATICS)], "partial"
+        elif r < 0.6:
+            o = {"op": "reduce", "self": i, "fn": rng.choice(pool), "dim": rng.choice(s["dims"]), "keep": True}
+        elif r < 0.7:
+            o = {"op": "named", "self": i, "which": rng.choice(REDUCERS), "dim": rng.choice(s["dims"]), "batch": rng.choice([0, 0, 2]), "keep": True}
+        elif r < 0.8:
+            o = {"op": "binary", "self": i, "which": rng.choice(BINARY), "scalar": rng.choice([2, 0.5, 3])}
+        elif r < 0.9:
+            o = {"op": "expand", "self": i, "dim": "e2", "size": rng.choice([1, 2]), "axis": 0}
+        else:
+            o = {"op": "broadcast", "self": i, "other": rng.randrange(len(snaps))}
+        st.update({"n": len(snaps), "o": o, "tops": rng.choice([0, 0, 1, 2]), "how": rng.choice(["binary", "binary", "join", "join-reduce"]),
+                   "which": rng.choice(BINARY), "fn": rng.choice(pool)})
+        return {**json.loads(json.dumps(o)), "probe": TWICE}
+
+    def once_more(snaps):
+        if not grown(snaps, 1):
+            st.clear()
+            return None
+        st["l"] = st["n"]
+        return {**json.loads(json.dumps(st["o"])), "probe": TWICE}
+
+    def top_l(snaps):
+        if not grown(snaps, 2):
+            st.clear()
+            return None
+        st["r"] = st["n"] + 1
+        if st["tops"] < 1:
+            return None
+        st["exp_l"] = len(snaps)
+        return {"op": "binary", "self": st["l"], "which": "power", "scalar": 2, "probe": TWICE}
+
+    def top_r(snaps):
+        if not st:
+            return None
+        if "exp_l" in st and len(snaps) == st["exp_l"] + 1:
+            st["l"] = st["exp_l"]
+        if st["tops"] < 2:
+            return None
+        st["exp_r"] = len(snaps)
+        return {"op": "binary", "self": st["r"], "which": "multiply", "scalar": 3, "probe": TWICE}
+
+    def combine(snaps):
+        if not st or "r" not in st:
+            return None
+        if "exp_r" in st and len(snaps) == st["exp_r"] + 1:
+            st["r"] = st["exp_r"]
+        st["m"] = len(snaps)
+        if st["how"] == "binary" or not snaps[st["l"]]["dims"]:
+            return {"op": "binary", "self": st["l"], "which": st["which"], "other": st["r"], "probe": TWICE}
+        return {"op": "join", "self": st["l"], "other": st["r"], "dim": snaps[st["l"]]["dims"][0], "match": False, "probe": TWICE}
+
+    def reduce_joined(snaps):
+        if not st or st.get("how") != "join-reduce" or "m" not in st or len(snaps) != st["m"] + 1 or not snaps[st["m"]]["dims"]:
+            return None
+        return {"op": "reduce", "self": st["m"], "fn": st["fn"], "dim": snaps[st["m"]]["dims"][0], "keep": False, "probe": TWICE}
+    return [again, once_more, top_l, top_r, combine, reduce_joined]
+
+
+def gen_unions(rng, prog, nact):
+    """which actions of the program are handed to Cascade.from_actions, and how: ONE action (first of all the one that holds a
+    sub-computation twice), one action twice, the same action of two builds, two actions, some, all, none; as a list, a tuple or
+    an iterator.  fresh = on a build of its own (de-duplication rewires the nodes it is given in place)."""
+    if nact == 0:
+        return []
+    form = lambda: rng.choice(["list", "list", "tuple", "iter"])
+    dup = [t for t, o in enumerate(prog["ops"]) if o.get("probe") == TWICE]
+    out = []
+    one = {"sel": [nact - 1 if dup and rng.random() < 0.7 else rng.randrange(nact)], "form": form(), "fresh": True}
+    out.append(one)
+    i = rng.randrange(nact)
+    out.append({"sel": [i, i], "form": form(), "fresh": False})
+    r = rng.random()
+    if r < 0.2:
+        i = rng.randrange(nact)
+        out.append({"sel": [i], "other": [i], "form": form(), "fresh": True})
+    elif r < 0.4:
+        out.append({"sel": [rng.randrange(nact), rng.randrange(nact)], "form": form(), "fresh": True})
+    elif r < 0.5:
+        out.append({"sel": [nact - 1 - k for k in range(min(nact, rng.choice([1, 2, 3])))], "form": form(), "fresh": True})
+    k = rng.choice([0, 1, 2, 3, nact, nact])
+    out.append({"sel": sorted(rng.sample(range(nact), min(k, nact))) if rng.random() < 0.7 else [rng.randrange(nact) for _ in range(k)], "form": form(), "fresh": False})
+    return out
+
+
+def union_check(sel, form, world, label):
+    """Cascade.from_actions over the actions `sel` (as a list / tuple / iterator): pairwise distinct node names, serialisable,
+    exactly the names that are reachable from the actions, each for the computation it was built for, no input that leaves
+    the graph, and the actions themselves untouched."""
+    from earthkit.workflows import Cascade
+    from earthkit.workflows.graph import serialise
+    fails = []
+
+    def ident(n):
+        func, args, kwargs = n.payload
+        return (world.identify(func)[0], [vkey(a) for a in args], sorted([kk, vkey(vv)] for kk, vv in kwargs.items()), len(n.inputs), list(n.outputs))
+    want = {}
+    reach = all_nodes(sel)
+    for n in reach:
+        want.setdefault(n.name, ident(n))
+    before = [snap(a) for a in sel]
+    given = list(sel) if form == "list" else tuple(sel) if form == "tuple" else (a for a in sel)
+    try:
+        cas = Cascade.from_actions(given)
+        gnodes = list(cas._graph.nodes())
+        names = [n.name for n in gnodes]
+        if len(names) != len(set(names)):
+            dup = next(x for x in names if names.count(x) > 1)
+            fails.append(("union-keeps-duplicate-names", f"Cascade.from_actions over {label} has {len(names)} nodes but {len(set(names))} names, e.g. {dup[:24]}..."))
+        else:
+            ser = serialise(cas._graph)
+            if sorted(ser) != sorted(names) or any((i if isinstance(i, str) else i[0]) not in ser for v in ser.values() for i in v.get("inputs", {}).values()):
+                fails.append(("union-keeps-duplicate-names", f"the serialised Cascade.from_actions over {label} has {len(ser)} entries for {len(names)} nodes, or an input outside the graph"))
+        for n in gnodes:
+            if n.name in want and ident(n) != want[n.name]:
+                fails.append(("union-changed-computation", f"node {n.name[:24]}... of Cascade.from_actions over {label} is not the computation that was built under this name"))
+                break
+        if set(names) - set(want):
+            fails.append(("union-changed-computation", f"Cascade.from_actions over {label} has {len(set(names) - set(want))} node name(s) that no node of these actions had"))
+        if set(want) - set(names):
+            fails.append(("union-lost-nodes", f"Cascade.from_actions over {label} has {len(set(names))} names, the actions reach {len(want)}"))
+    except AssertionError as e:
+        fails.append(("union-keeps-duplicate-names", f"Cascade.from_actions / serialise over {label} raised AssertionError {e}"))
+    after = [snap(a) for a in sel]
+    if any(not same_snap(b, c) for b, c in zip(before, after)):
+        fails.append(("operand-changed", f"Cascade.from_actions over {label} changed one of them"))
+    return fails, len(reach) - len(want)
+
+
+def run_unions(prog, instances, rec):
+    """the unions of the program (prog['unions']), each on further builds of the program that nothing has de-duplicated yet"""
+    fails, cur, done = [], None, []
+    world = World(instances)      # the callables of every build made here: de-duplication may leave a node of an earlier build in a later graph
+    rec.paused = True
+    try:
+        for u in prog.get("unions", []):
+            if cur is None or u.get("fresh"):
+                cur = run_build(prog, instances)
+                world.by_id.update(cur["world"].by_id)
+            acts = cur["actions"]
+            if any(ix >= len(acts) for ix in u["sel"] + u.get("other", [])):
+                continue      # (a shrunk case: the action is not built any more)
+            sel = [acts[ix] for ix in u["sel"]]
+            if u.get("other"):
+                second = run_build(prog, instances)
+                sel += [second["actions"][ix] for ix in u["other"]]
+                world.by_id.update(second["world"].by_id)
+            label = (f"{len(sel)} action(s) of the program (#{', #'.join(str(ix) for ix in u['sel'])}"
+                     + (f" and #{', #'.join(str(ix) for ix in u['other'])} of another build" if u.get("other") else "") + f", given as {u['form']})")
+            got, twice = union_check(sel, u["form"], world, label)
+            done.append((u, len(sel), twice))
+            fails += got[:1]
+    finally:
+        rec.paused = False
+    return fails, done
+
+
 def build_sources(prog, world):
     import numpy as np
     from earthkit.workflows.fluent import Payload, from_source
@@ -980,7 +1169,7 @@ def run_build(prog, instances, rng=None, nops=0, rec=None):
         else:
             # the end of every generated program: the designed pairs, inputs in swapped order, a held object with 1 / n / 1 inputs
             if plan is None:
-                plan = [(lambda snaps, o=o: o) for o in probe_ops(rng, prog, before)] + swap_steps(rng, pool) + arity_steps(rng, prog)
+                plan = [(lambda snaps, o=o: o) for o in probe_ops(rng, prog, before)] + swap_steps(rng, pool) + arity_steps(rng, prog) + twice_steps(rng, pool)
             o = None
             while plan and o is None:
                 o = plan.pop(0)(before)
@@ -1126,8 +1315,13 @@ def _run_program(prog, rng, nops, rec):
     for ix, (b, c) in enumerate(zip(before, after)):
         if not same_snap(b, c):
             fails.append(("operand-changed", f"Cascade.from_actions changed action #{ix}"))
+    # unions over SOME of the actions (one, one twice, two, the same of two builds, none ...), each on a build nothing has de-duplicated yet
+    if rng is not None:
+        prog["unions"] = gen_unions(rng, prog, len(A["actions"]))
+    ufails, udone = run_unions(prog, instances, rec)
+    fails += ufails
     fails += rec.fails[:1] + (late or rec.still_as_built("after Cascade.from_actions over both builds"))
-    return {"A": A, "B": B, "rowsA": rowsA, "rowsB": rowsB, "rec": rec}, fails
+    return {"A": A, "B": B, "rowsA": rowsA, "rowsB": rowsB, "rec": rec, "unions": udone}, fails
 
 
 # ------------------------------------------------------------------------------ generator
@@ -1439,12 +1633,59 @@ def arity_matrix():
     return out
 
 
+def dup_matrix():
+    """small scope, exhaustive: a program that writes the same sub-computation twice (map, reduce, a named reduction, expand,
+    broadcast; directly combined, with something different on top of each, joined and reduced) x how its LAST action is handed to
+    Cascade.from_actions (alone as list / tuple / iterator, twice, with the same action of another build, with a source, with all
+    actions) and the empty union"""
+    f = {"kind": "def", "name": "f", "body": 0}
+    g = {"kind": "closure", "name": "g", "body": 0, "k": 1}
+    m = {"op": "map", "self": 0, "fn": f}
+    mk = {"op": "map", "self": 0, "fn": g, "kwargs": {"p": 1}}
+    rd = {"op": "reduce", "self": 0, "fn": g, "dim": "x", "keep": True}
+    nm = {"op": "named", "self": 0, "which": "sum", "dim": "x", "batch": 2, "keep": True}
+    ex = {"op": "expand", "self": 0, "dim": "e0", "size": 2, "axis": 0}
+    bc = {"op": "broadcast", "self": 0, "other": 1}
+    add = lambda i, j: {"op": "binary", "self": i, "which": "add", "other": j}
+    sc = lambda i, w, v: {"op": "binary", "self": i, "which": w, "scalar": v}
+    src = lambda n, sh, d="x": {"dims": [d], "coords": {d: [sh + k for k in range(n)]}, "cells": [{"fn": g, "args": [sh + i]} for i in range(n)]}
+    bodies = []
+    for o in (m, mk, rd, nm, ex):
+        bodies.append((1, [o, o, add(1, 2)]))
+    bodies.append((1, [m, m, sc(1, "power", 2), sc(2, "multiply", 3), add(3, 4)]))
+    bodies.append((1, [m, m, {"op": "join", "self": 1, "other": 2, "dim": "x", "match": False}, {"op": "reduce", "self": 3, "fn": g, "dim": "x", "keep": False}]))
+    bodies.append((1, [m, m, m, add(1, 2), add(4, 3)]))
+    bodies.append((2, [bc, bc, add(2, 3)]))
+    out = []
+    for nsrc, ops in bodies:
+        last = nsrc + len(ops) - 1
+        unions = [{"sel": [last], "form": fm, "fresh": True} for fm in ("list", "tuple", "iter")]
+        unions += [{"sel": [last, last], "form": "list", "fresh": True}, {"sel": [last], "other": [last], "form": "list", "fresh": True},
+                   {"sel": [last, 0], "form": "list", "fresh": True}, {"sel": [0, last], "form": "iter", "fresh": True},
+                   {"sel": list(range(last + 1)), "form": "tuple", "fresh": True}, {"sel": [], "form": "list", "fresh": True},
+                   {"sel": [last - 1], "form": "list", "fresh": True}, {"sel": [last], "form": "list", "fresh": False}]
+        out.append({"sources": [src(3, 0), src(2, 10, "y")][:nsrc], "pool": [f, g], "held": [],
+                    "ops": [{**json.loads(json.dumps(o)), "probe": TWICE} for o in ops], "unions": unions})
+    return out
+
+
 def stored(prog):
-    return {"sources": prog["sources"], "pool": prog.get("pool", []), "held": prog.get("held", []), "ops": prog.get("ops", [])}      # (the probes are among the ops)
+    return {"sources": prog["sources"], "pool": prog.get("pool", []), "held": prog.get("held", []), "ops": prog.get("ops", []),      # (the probes are among the ops)
+            "unions": prog.get("unions", [])}
 
 
 def prog_of(c):
-    return {"sources": c["sources"], "pool": c["pool"], "held": c.get("held", []), "ops": [dict(o) for o in c.get("ops", [])]}
+    return {"sources": c["sources"], "pool": c["pool"], "held": c.get("held", []), "ops": [dict(o) for o in c.get("ops", [])],
+            "unions": [dict(u) for u in c.get("unions", [])]}
+
+
+def count_unions(res, obs, prefix=""):
+    for u, n, twice in obs["unions"]:
+        res.count(f"{prefix}union-over:{min(n, 4)}{'+' if n > 4 else ''}-action(s):{u['form']}:" + ("reaches-two-nodes-of-one-name" if twice else "all-names-distinct-already"))
+        if u.get("other"):
+            res.count(prefix + "union-over:same-action-of-two-builds")
+        elif len(u["sel"]) > len(set(u["sel"])):
+            res.count(prefix + "union-over:an-action-given-twice")
 
 
 def run(ctx, res):
@@ -1466,6 +1707,16 @@ def run(ctx, res):
         obs, fails = run_program(prog)
         res.count("small-scope:held-object-two-operations")
         res.evaluations += 2 * (1 + len(prog["ops"]))
+        for sig, what in fails:
+            res.fail(sig, what, stored(prog))
+    for prog in dup_matrix():
+        obs, fails = run_program(prog)
+        res.count("small-scope:sub-computation-written-twice-x-union-forms")
+        res.evaluations += 2 * (len(prog["sources"]) + len(prog["ops"])) + len(obs["unions"])
+        count_unions(res, obs, "small-scope-")
+        if [s for s in obs["A"]["steps"] if "err" in s] or not any(tw for u, n, tw in obs["unions"] if n == 1):
+            res.disagree("harness: a small-scope program that writes a sub-computation twice did not run as designed "
+                         "(an operation was refused, or no single action reaches two nodes of one name)", stored(prog))
         for sig, what in fails:
             res.fail(sig, what, stored(prog))
     rng = ctx.sub_rng("programs")
@@ -1491,6 +1742,11 @@ def run(ctx, res):
                 res.count("binary-between-actions:" + ("coordinates-differ" if a["labels"] != b["labels"] else "coordinates-equal"))
         for fam, _ in prog.get("pairs", []):
             res.count("designed-pair:" + fam)
+        res.evaluations += len(obs["unions"])
+        count_unions(res, obs)
+        for st, o in zip(obs["A"]["steps"], prog["ops"]):
+            if o.get("probe") == TWICE:
+                res.count("rebuilt-twice:" + o["op"] + (":raised" if "err" in st else ""))
         for o in prog["ops"]:
             if "fn" in o:
                 res.count("callable-kind:" + o["fn"]["kind"])
@@ -1564,6 +1820,7 @@ def without_op(case, t):
     ops = [dict(o) for o in case["ops"]]
     made = None if "err" in st or st["slot"] < len(st["before"]) else st["slot"]
     rest = ops[t + 1:]
+    unions = [dict(u) for u in case.get("unions", [])]
     if made is not None:
         if any(o.get(k) == made for o in rest for k in ("self", "other")):
             return None
@@ -1571,7 +1828,12 @@ def without_op(case, t):
             for k in ("self", "other"):
                 if isinstance(o.get(k), int) and o[k] > made:
                     o[k] -= 1
-    return {**case, "ops": ops[:t] + rest}
+        unions = [u for u in unions if made not in u["sel"] + u.get("other", [])]
+        for u in unions:
+            for k in ("sel", "other"):
+                if k in u:
+                    u[k] = [ix - 1 if ix > made else ix for ix in u[k]]
+    return {**case, "ops": ops[:t] + rest, "unions": unions}
 
 
 def shrink(ctx, f):
@@ -1584,7 +1846,7 @@ def shrink(ctx, f):
             return None
         hit = [x for x in fails if x[0] == f["signature"]]
         return hit[0][1] if hit else None
-    case = {k: f["case"][k] for k in ("sources", "pool", "held", "ops") if k in f["case"]}
+    case = {k: f["case"][k] for k in ("sources", "pool", "held", "ops", "unions") if k in f["case"]}
     case.setdefault("ops", [])
     best = None
     for n in range(len(case["ops"]) + 1):
@@ -1600,6 +1862,12 @@ def shrink(ctx, f):
         what = failing(c) if c is not None else None
         if what:
             best = (c, what)
+    for u in best[0].get("unions", []):
+        c = {**best[0], "unions": [u]}
+        what = failing(c)
+        if what:
+            best = (c, what)
+            break
     return {"signature": f["signature"], "what": best[1], "case": stored(best[0])}
 
 
